@@ -1,7 +1,7 @@
 """C04W - statement-level Coq model of the OASIS writer (write_oas and the to_oas routines) tied byte for byte to the
 real writer, and the theorem that what it writes conforms to the specification; meant to be merged into C04 / C02."""
 CONFIG = {
-    "manifest": {'level_text': "Statement-level Gallina model write_oas_model of Library::write_oas without compression on the integer grid (magic + START with the unit real as oasis_write_real writes it and the offset-table flag, library PROPERTY records, per cell: CELL by reference number, POLYGON with the point-list type oasis_write_point_list selects, PATH records of simple FlexPaths with the extension scheme, PLACEMENT / PLACEMENT_TRANSFORM by reference number or name string with magnification / angle reals and the quarter-turn bits, TEXT by reference number, oasis_write_repetition for every Repetition type, the info bytes as the code sets them, PROPERTY records after every element; CELLNAME records with the cell properties and S_CELL_OFFSET, TEXTSTRING / PROPNAME records in the slot order of gdstk's hash maps (Table.v of C20), PROPSTRING records, END with table offsets, padding to 256 bytes and validation scheme 0). Theorem oas_writer_conforms_lemma: for EVERY well-formed library of the covered subset and both settings of OASIS_CONFIG_PROPERTY_CELL_OFFSET, spec_oas_decode (write_oas_model cfg l) = Some (view_w cfg l): the strict specification-level decoder accepts the file and decodes it to the library that was saved (names resolved through the tables, properties attached to the right owners). Theorem cell_offsets_point_at_cells_lemma: every S_CELL_OFFSET value is the file position of a CELL record. Detection flags (coq/OasisWriteDetect.v, Properties_C02D): write_oas_model_d cfg (dr, dt) is the same writer with Polygon::to_oas modelled in full for circle tolerance 0 (if DETECT_RECTANGLES && is_rectangle: RECTANGLE with the square bit; else if DETECT_TRAPEZOIDS && is_trapezoid: TRAPEZOID_B / _A / _AB or CTRAPEZOID with the dimensions the type uses; else POLYGON; then repetition and properties); write_oas_model_d_off: with both flags off it IS write_oas_model for every input; oas_writer_conforms_d: under EVERY flag word the strict decoder accepts the file and decodes it to the library as the file holds it (view_w_d), which view_w_d_sim relates to the saved library (equal up to starting vertex / orientation of the detected 3- and 4-vertex polygons and the values of S_CELL_OFFSET); decoder_flag_independence; writer_output_covered_d / oas_models_roundtrip_d / reader_detected_vs_plain / reader_flag_independence: the reader model loads the detected file to the same library as the undetected one up to that similarity, for the flag words (R,-), (R,T), (-,-) on every library and for (-,T) on libraries without a polygon that is written as CTRAPEZOID 25 (guard c5 of the reader theorem; writer_output_covered_d_refuted exhibits the square).", 'level_note': "Covered flags: OASIS_CONFIG_PROPERTY_CELL_OFFSET on/off; OASIS_CONFIG_DETECT_RECTANGLES / DETECT_TRAPEZOIDS in every combination (write_oas_model_d); every other flag is modelled as off (PROPERTY_MAX_COUNTS, PROPERTY_TOP_LEVEL, PROPERTY_BOUNDING_BOX, INCLUDE_CRC32, INCLUDE_CHECKSUM32), compression level 0, circle tolerance 0 (circle detection is outside the model). Outside the model: RobustPath, non-simple paths, path elements with an offset, round / smooth ends, RawCell references. wlib_ok asks for distinct cell names, 64-bit ranges, coordinates below 2^62, non-negative ExplicitX / ExplicitY coordinates (known finding) and a file shorter than 2^64 bytes. The model takes the values after llround(x * scaling) and the result of is_multiple_of_pi_over_2 as inputs. The theorems depend on the standard-library axioms Flocq's definitions pull in (through OasisReal.enc_real), as the OASIS-real theorems of C19 do.", 'technique': 'Coq proof over a statement-level Gallina model of the writer + byte-for-byte differential run of the extracted model against Library::write_oas'},
+    "manifest": {'level_text': "Statement-level Gallina model write_oas_model of Library::write_oas without compression on the integer grid (magic + START with the unit real as oasis_write_real writes it and the offset-table flag, library PROPERTY records, per cell: CELL by reference number, POLYGON with the point-list type oasis_write_point_list selects, PATH records of simple FlexPaths with the extension scheme, PLACEMENT / PLACEMENT_TRANSFORM by reference number or name string with magnification / angle reals and the quarter-turn bits, TEXT by reference number, oasis_write_repetition for every Repetition type, the info bytes as the code sets them, PROPERTY records after every element; CELLNAME records with the cell properties and S_CELL_OFFSET, TEXTSTRING / PROPNAME records in the slot order of gdstk's hash maps (Table.v of C20), PROPSTRING records, END with table offsets, padding to 256 bytes and validation scheme 0). Theorem oas_writer_conforms_lemma: for EVERY well-formed library of the covered subset and both settings of OASIS_CONFIG_PROPERTY_CELL_OFFSET, spec_oas_decode (write_oas_model cfg l) = Some (view_w cfg l): the strict specification-level decoder accepts the file and decodes it to the library that was saved (names resolved through the tables, properties attached to the right owners). Theorem cell_offsets_point_at_cells_lemma: every S_CELL_OFFSET value is the file position of a CELL record. Detection flags (coq/OasisWriteDetect.v, Properties_C02D): write_oas_model_d cfg (dr, dt) is the same writer with Polygon::to_oas modelled in full for circle tolerance 0 (if DETECT_RECTANGLES && is_rectangle: RECTANGLE with the square bit; else if DETECT_TRAPEZOIDS && is_trapezoid: TRAPEZOID_B / _A / _AB or CTRAPEZOID with the dimensions the type uses; else POLYGON; then repetition and properties); write_oas_model_d_off: with both flags off it IS write_oas_model for every input; oas_writer_conforms_d: under EVERY flag word the strict decoder accepts the file and decodes it to the library as the file holds it (view_w_d), which view_w_d_sim relates to the saved library (equal up to starting vertex / orientation of the detected 3- and 4-vertex polygons and the values of S_CELL_OFFSET); decoder_flag_independence; oas_models_roundtrip_d_all / reader_detected_vs_plain / reader_flag_independence: under EVERY flag word the reader model loads the file to the library it holds, which is the library loaded from the undetected file (and from the file of any other flag word) up to that similarity. The file is in the class `covered` of OasisRead.v except when a square is written as CTRAPEZOID 25 under DETECT_TRAPEZOIDS alone (writer_output_covered_d, writer_output_covered_d_refuted); for that record guard c5 of the reader theorem is relaxed in OasisReadRelaxed.v (cov5_reader_ok: the guarded decoder extended by CTRAPEZOID 25 with the modal height undefined afterwards still predicts the reader), and the writer's output is proved to lie in the relaxed class for every flag word.", 'level_note': "Covered flags: OASIS_CONFIG_PROPERTY_CELL_OFFSET on/off; OASIS_CONFIG_DETECT_RECTANGLES / DETECT_TRAPEZOIDS in every combination (write_oas_model_d); every other flag is modelled as off (PROPERTY_MAX_COUNTS, PROPERTY_TOP_LEVEL, PROPERTY_BOUNDING_BOX, INCLUDE_CRC32, INCLUDE_CHECKSUM32), compression level 0, circle tolerance 0 (circle detection is outside the model). Outside the model: RobustPath, non-simple paths, path elements with an offset, round / smooth ends, RawCell references. wlib_ok asks for distinct cell names, 64-bit ranges, coordinates below 2^62, non-negative ExplicitX / ExplicitY coordinates (known finding) and a file shorter than 2^64 bytes. The model takes the values after llround(x * scaling) and the result of is_multiple_of_pi_over_2 as inputs. The theorems depend on the standard-library axioms Flocq's definitions pull in (through OasisReal.enc_real), as the OASIS-real theorems of C19 do.", 'technique': 'Coq proof over a statement-level Gallina model of the writer + byte-for-byte differential run of the extracted model against Library::write_oas'},
     "prop_file": "OasisWriteProofs",
     "extra_prop_files": ["Properties_C02D"],   # the writer under the detection flags (OasisWriteDetect*.v)
     "extract_file": "Extract_C04W",
